@@ -215,9 +215,15 @@ def run(tier):
         si, oi = back[idx - 1]
         e = events[idx - 1]
         verdict.add_drift(f"{reason} but {e['res']}: {e['call']} [{e['cls']}] in {scripts[si]['id']}")
+    # cross-subsystem walks judged against the umbrella specification (Session.tla); this property's clauses only
+    import sessionwalk
+    sw_model = sessionwalk.model_check(wd, tier)
+    sw = sessionwalk.stage(PID, wd, tier, verdict)
     rc = verdict.finish(wd)
     calls_ev = [e for e in events if e["call"] != "session"]
     C.write_evidence(PID, tier, "model_checking", {
+        **sw,
+        "session_model_distinct_states": sw_model["distinct"],
         "states": m1["distinct"], "transitions": m1["states"],
         "traces_validated_against_impl": len(scripts),
         "samples": [[(o["op"], {k: str(v)[:60] for k, v in o.items() if k not in ("op", "names")}) for o in scripts[len(singles) * 4 + 3]["ops"][:6]]],
